@@ -2524,13 +2524,18 @@ func (r *client) resolveSerializer(message any) remote.Serializer {
 	if msgType == nil {
 		return r.dispatcher
 	}
+	// exact concrete type first: an entry registered for the message's dynamic
+	// type wins over any interface the message also implements, whatever the
+	// registration order (the default proto.Message entry is always first)
 	for i := range r.serializers {
 		entry := &r.serializers[i]
-		if entry.iface.Kind() == reflect.Interface {
-			if msgType.Implements(entry.iface) {
-				return entry.serializer
-			}
-		} else if msgType == entry.iface {
+		if entry.iface.Kind() != reflect.Interface && msgType == entry.iface {
+			return entry.serializer
+		}
+	}
+	for i := range r.serializers {
+		entry := &r.serializers[i]
+		if entry.iface.Kind() == reflect.Interface && msgType.Implements(entry.iface) {
 			return entry.serializer
 		}
 	}
